@@ -121,6 +121,41 @@ func runC14(tier string, seed uint64, rep *Report) {
 			rep.Histogram["triples"]++
 		}
 	}
+	// values that SHARE STORAGE: a sequence and a proper prefix / a window of it over the same Go array (what subvec,
+	// rest and the reader's slices produce), alone and nested at matching positions; a map and a copy sharing element values
+	m := 400
+	if tier == "thorough" {
+		m = 20000
+	}
+	for i := 0; i < m; i++ {
+		k := 1 + r.Intn(5)
+		base := make([]types.MalType, k, k+r.Intn(3))
+		for j := range base {
+			base[j] = h.GenData(r, 2)
+		}
+		lo := r.Intn(k + 1)
+		hi := lo + r.Intn(k-lo+1)
+		mk := func(xs []types.MalType, vec bool) types.MalType {
+			if vec {
+				return types.Vector{Val: xs}
+			}
+			return types.List{Val: xs}
+		}
+		va, vb := r.Bool(), r.Bool()
+		a, b := mk(base, va), mk(base[lo:hi], vb)
+		if r.Bool() {
+			b = mk(base[:hi], vb) // a prefix starting at the same element
+		}
+		one(a, b, "shared-storage")
+		one(types.Vector{Val: []types.MalType{a, 1}}, types.Vector{Val: []types.MalType{b, 1}}, "shared-storage-nested")
+		one(types.HashMap{Val: map[string]types.MalType{h.Kw("k"): a}}, types.HashMap{Val: map[string]types.MalType{h.Kw("k"): b}}, "shared-storage-in-map")
+		// transitivity through a fresh copy of the shorter one
+		c := h.Rebuild(b)
+		ab, bc, ac := eq(a, b), eq(b, c), eq(a, c)
+		if ab.Val == true && bc.Val == true && ac.Val != true {
+			rep.Violate(-1, "= is not transitive", fmt.Sprintf("a=%s b=%s (a window of a's storage) c=%s (a copy of b)", h.Show(a), h.Show(b), h.Show(c)))
+		}
+	}
 	// reflexivity over the universe and random values
 	for _, a := range u {
 		if o := eq(a, a); o.Val != true {
